@@ -15,6 +15,8 @@ type gg struct {
 	lines     []string
 	odd       int // 0..100: probability (percent) of choosing an odd token text
 	oddBudget int
+	curApp    string
+	declared  [][2]string // (application, endpoint) pairs declared so far: calls may target them in any form
 }
 
 func (g *gg) n(lo, hi int, label string) int { return rapid.IntRange(lo, hi).Draw(g.t, label) }
@@ -395,6 +397,13 @@ func (g *gg) statement(depth, nest int) {
 			tgt = g.appName() + " "
 		}
 		ep := pick(g.t, []string{g.name(), g.textLine(), "GET /a/{b}", "POST /x?y=z", "DELETE  /", "a -> b"}, "callep")
+		if len(g.declared) > 0 && g.p(35, "calldeclared") {
+			// a call that resolves to a declared application, naming its endpoint plainly, as a REST
+			// method, or under a name it does not have (the linter and post-processing look these up)
+			d := pick(g.t, g.declared, "declaredep")
+			tgt = d[0] + " "
+			ep = pick(g.t, []string{"", "", "GET ", "POST ", "DELETE ", "PATCH "}, "declmethod") + pick(g.t, []string{d[1], d[1], "/" + d[1], d[1] + "/x"}, "declform")
+		}
 		args := ""
 		if g.p(30, "callargs") {
 			var as []string
@@ -438,6 +447,7 @@ func (g *gg) simpleEndpoint(depth int) {
 	for g.p(10, "epslash") {
 		nm += "/" + g.nameStr()
 	}
+	g.declared = append(g.declared, [2]string{g.curApp, nm})
 	hdr := nm
 	if g.p(15, "eplong") {
 		hdr += " " + g.qstring()
@@ -533,6 +543,7 @@ func (g *gg) collector(depth int) {
 
 func (g *gg) application() {
 	hdr := g.appName()
+	g.curApp = hdr
 	if g.p(20, "applong") {
 		hdr += " " + g.qstring()
 	}
